@@ -192,7 +192,7 @@ def gen_inputs(ctx):
     def add(kind, files, root):
         wss.append(L.mk_ws(files, root, ctx.rng, hover=True, completion=True, hints="sample"))
         kinds.append(kind)
-    n_base = 120 if ctx.quick else 2400
+    n_base = 120 if ctx.quick else 1800
     for kind, files, root in L.derived_workspaces(g, ctx.rng, n_base, 4, 6, 1):
         add(kind, files, root)
     # every token prefix of a few programs
